@@ -114,7 +114,11 @@ func TestC20Fixed(t *testing.T) {
 				rep.ExpStmts = append(rep.ExpStmts, exponent(float64(s[i-1]), float64(s[i]), float64(rep.Sizes[i])/float64(rep.Sizes[i-1])))
 			}
 		}
-		msg := verdict20(rep)
+		reports = append(reports, rep)
+		// allocation counters (replayable in-process) …
+		allocRep := rep
+		allocRep.Stmts, allocRep.ExpStmts = nil, nil
+		msg := verdict20(allocRep)
 		r := &core.Rec{}
 		r.Class("op:" + f.Op)
 		if rep.Trivial {
@@ -125,10 +129,23 @@ func TestC20Fixed(t *testing.T) {
 		if msg != "" {
 			r.Failf("%s", msg)
 		}
-		reports = append(reports, rep)
 		if core.Account("C20", f, r) {
 			core.Extra("fixed_families", summarise20(reports))
 			t.Fatalf("VIOLATION C20: %s", msg)
+		}
+		// … and the statement counter (replayed through the probe)
+		if len(rep.Stmts) > 0 {
+			stRep := rep
+			stRep.ExpBytes, stRep.ExpMall = nil, nil
+			rs := &core.Rec{}
+			rs.NT()
+			if m := verdict20(stRep); m != "" {
+				rs.Failf("%s", m)
+			}
+			if core.Account("C20.stmts", f, rs) {
+				core.Extra("fixed_families", summarise20(reports))
+				t.Fatalf("VIOLATION C20: %s", rs.Message())
+			}
 		}
 	}
 	core.Extra("fixed_families", summarise20(reports))
